@@ -67,6 +67,24 @@ def cases(tier, seed):
                     out.append({"n": 2, "vk": vk, "rows": [list(r) for r in rows], "obj": obj, "fmt": FMTS[idx % 4], "si": si, "nzpat": True,
                                 "lat": [0, 1, 2, 3]})
                     idx += 1
+    # three and four rows: every interleaving of equality / one-sided / ranged rows (slack columns must follow the row order)
+    for m, kinds in ((3, S.ROW_KINDS), (4, ["eqoff", "lower", "upper", "ranged"])):
+        fns = ["affine", "bilinear", "sphere", "affine"]
+        for ks in itertools.product(kinds, repeat=m):
+            rows = [(fns[i], k) for i, k in enumerate(ks)]
+            for si in ((0, 4) if tier == "quick" else (0, 1, 4, 5)):
+                out.append({"n": 2, "vk": ["free", "boxed"], "rows": [list(r) for r in rows], "obj": "qfull", "fmt": FMTS[idx % 4], "si": si,
+                            "lat": [1, 2] if tier == "quick" else [0, 1, 2, 3]})
+                idx += 1
+    # the non-validating evaluator (validate_input=False): every row-kind tuple again, incl. slack-free problems with offsets only
+    for vk in (["free", "boxed"], ["lower", "fixed"]):
+        for m in (0, 1, 2):
+            for ks in itertools.product(S.ROW_KINDS, repeat=m):
+                rows = [("bilinear" if i == 0 else "affine", k) for i, k in enumerate(ks)]
+                for si in (0, 1, 4, 6):
+                    out.append({"n": 2, "vk": vk, "rows": [list(r) for r in rows], "obj": "qfull", "fmt": FMTS[idx % 4], "si": si,
+                                "pp": {"validate_input": False}, "lat": [1, 2] if tier == "quick" else [0, 1, 2, 3]})
+                    idx += 1
     # constant integer-valued Jacobians / Hessians returned with an integer dtype
     for vk in (["free", "boxed"], ["lower", "upper"]):
         for rows in ([("affine", "eq0")], [("affine", "ranged"), ("affine", "eqoff")], [("affine", "upper")]):
@@ -99,7 +117,7 @@ def run_case(case):
     prob = UserProblem(spec)
     F = Funcs(spec)
     try:
-        params = make_params({}, sc)
+        params = make_params({"params": dict(case["pp"])} if case.get("pp") else {}, sc)
         tr = Transformation(prob, params)
     except Exception as e:
         # e.g. equilibration legitimately failing: not C04's concern
@@ -130,7 +148,7 @@ def run_case(case):
     if not eq(P.cons_lb, np.zeros(m)) or not eq(P.cons_ub, np.zeros(m)):
         bad("cons_bounds", [P.cons_lb, P.cons_ub], np.zeros((2, m)), "-")
 
-    ys = [np.zeros(m), np.array([1.0, -2.0][:m]), np.array([0.5, 0.25][:m])]
+    ys = [np.zeros(m), np.array([1.0, -2.0, 0.75, -0.5][:m]), np.array([0.5, 0.25, -1.5, 2.0][:m])]
     pts = []
     for k in case.get("lat", [0, 1, 2, 3]):
         xu = np.array(S.LATTICE[k][:n])
@@ -196,7 +214,7 @@ def run_case(case):
     nontriv = T.ns > 0 or bool(np.any(T.offset != 0)) or wsig not in ("none",)
     key = None
     if nontriv:
-        key = f"{[r[1] for r in case['rows']]}|{case['vk']}|{wsig}|{case['fmt']}|{case.get('idtype', False)}"
+        key = f"{[r[1] for r in case['rows']]}|{case['vk']}|{wsig}|{case['fmt']}|{case.get('idtype', False)}|{sorted((case.get('pp') or {}).items())}"
     # one replay per distinct signature
     seen, vs = set(), []
     for v in viol:
